@@ -628,3 +628,6 @@ _hdr("C08", """   C08_struct_of_build: the STRUCTURAL half of the certificate (c
      (sizes, root and level intercepts within the no-overflow bound, every table slope finite and non-negative -- Flocq facts about the
      x87 slope merging, C08_merge_slopes_ok); what remains checked per index at run time is the contract at the representatives and
      the equal-trace condition (cmp_pass_b).""")
+_add("C02", [("C02_too_far_value", "SatTie.v", "pgm_too_far_value")], imports=("Fp", "GenLeaf", "SatTie"))
+_add("C07", [("C07_too_far_value", "SatTie.v", "pgm_too_far_value")], imports=("Fp", "GenLeaf", "SatTie"))
+_add("C11", [("C11_too_far_value", "SatTie.v", "pgm_too_far_value")], imports=("Fp", "GenLeaf", "SatTie"))
